@@ -115,6 +115,8 @@ fn part_c(rep: &Reporter, args: &Args) {
             ("5 bytes of record header", hello[..5].to_vec()),
             ("half a ClientHello", hello[..hello.len() / 2].to_vec()),
             ("complete ClientHello, then silence", hello.clone()),
+            // one byte of a valid hello every 0.4 T: never completes, and no single gap reaches the timeout
+            ("slow drip of a valid ClientHello", hello.clone()),
         ];
         let mut js = vec![];
         for round in 0..args.qt(1, 6) {
@@ -123,9 +125,21 @@ fn part_c(rep: &Reporter, args: &Args) {
                 js.push(tokio::spawn(async move {
                     let t0 = std::time::Instant::now();
                     let Ok(mut s) = tokio::net::TcpStream::connect(addr).await else { return (name, round, None, 0usize) };
-                    let _ = s.write_all(&bytes).await;
                     let mut buf = vec![0u8; 8192];
                     let mut got = 0usize;
+                    if name.starts_with("slow drip") {
+                        for b in bytes.iter().take(40) {
+                            if s.write_all(&[*b]).await.is_err() { return (name, round, Some(t0.elapsed()), got); }
+                            match tokio::time::timeout(Duration::from_millis(600), s.read(&mut buf)).await {
+                                Ok(Ok(0)) | Ok(Err(_)) => return (name, round, Some(t0.elapsed()), got),
+                                Ok(Ok(n)) => got += n,
+                                Err(_) => {}
+                            }
+                            if t0.elapsed() > Duration::from_millis(2 * 1500 + 2500) { return (name, round, None, got); }
+                        }
+                        return (name, round, None, got);
+                    }
+                    let _ = s.write_all(&bytes).await;
                     loop {
                         match tokio::time::timeout(Duration::from_millis(2 * 1500 + 2500), s.read(&mut buf)).await {
                             Ok(Ok(0)) | Ok(Err(_)) => return (name, round, Some(t0.elapsed()), got),
